@@ -177,6 +177,24 @@ func (v Val) IsNull() bool {
 
 var pgEpoch = time.Date(2000, 1, 1, 0, 0, 0, 0, time.UTC)
 
+const pgEpochUnix = 946684800
+
+// microsTime converts microseconds since 2000-01-01 to a time.Time without
+// going through time.Duration (which overflows after ~292 years).
+func microsTime(us int64) time.Time {
+	sec := us / 1000000
+	rem := us % 1000000
+	if rem < 0 {
+		rem += 1000000
+		sec--
+	}
+	return time.Unix(pgEpochUnix+sec, rem*1000).UTC()
+}
+
+func timeMicros(t time.Time) int64 {
+	return (t.Unix()-pgEpochUnix)*1000000 + int64(t.Nanosecond()/1000)
+}
+
 func basicGo(g string, v Val) (any, bool) {
 	switch g {
 	case "bool":
@@ -210,7 +228,7 @@ func basicGo(g string, v Val) (any, bool) {
 	case "date":
 		return pgEpoch.AddDate(0, 0, int(v.I)), true
 	case "time":
-		return pgEpoch.Add(time.Duration(v.I) * time.Microsecond), true
+		return microsTime(v.I), true
 	}
 	return nil, false
 }
@@ -300,9 +318,9 @@ func pgStruct(name string, v Val, valid bool) any {
 	case "Date":
 		return pgtype.Date{Time: pgEpoch.AddDate(0, 0, int(v.I)), Valid: valid}
 	case "Timestamp":
-		return pgtype.Timestamp{Time: pgEpoch.Add(time.Duration(v.I) * time.Microsecond), Valid: valid}
+		return pgtype.Timestamp{Time: microsTime(v.I), Valid: valid}
 	case "Timestamptz":
-		return pgtype.Timestamptz{Time: pgEpoch.Add(time.Duration(v.I) * time.Microsecond), Valid: valid}
+		return pgtype.Timestamptz{Time: microsTime(v.I), Valid: valid}
 	}
 	panic("pgStruct " + name)
 }
@@ -404,7 +422,7 @@ func CanonOfGo(x any) (pgwire.Value, bool) {
 		return pgwire.Value{Kind: "uuid", B: append([]byte{}, t[:]...)}, true
 	case time.Time:
 		// date and timestamp share time.Time; callers fix the kind by OID
-		return pgwire.Value{Kind: "ts", I: t.Sub(pgEpoch).Microseconds()}, true
+		return pgwire.Value{Kind: "ts", I: timeMicros(t)}, true
 	}
 	return pgwire.Value{}, false
 }
@@ -498,6 +516,13 @@ func errClass(err error) string {
 	return "err"
 }
 
+func cloneBytes(b []byte) []byte {
+	if b == nil {
+		return nil
+	}
+	return append([]byte{}, b...)
+}
+
 func hexs(b []byte) string {
 	if b == nil {
 		return "nil"
@@ -558,7 +583,7 @@ func (rt *Runtime) runStmt(ctx context.Context, key string, idx int, sp *StmtPro
 					c.rec("op", fmt.Sprintf("%d copyread %s", oi, errClass(err)))
 					break
 				}
-				c.rec("op", fmt.Sprintf("%d copyread data %s", oi, hexs(append([]byte{}, cr.Msg...))))
+				c.rec("op", fmt.Sprintf("%d copyread data %s", oi, hexs(cloneBytes(cr.Msg))))
 				if n > 100000 {
 					break
 				}
@@ -586,7 +611,7 @@ func (rt *Runtime) runStmt(ctx context.Context, key string, idx int, sp *StmtPro
 		case "params":
 			var sb strings.Builder
 			for i, p := range params {
-				fmt.Fprintf(&sb, " [%d f=%d v=%s]", i, p.Format(), hexs(append([]byte(nil), p.Value()...)))
+				fmt.Fprintf(&sb, " [%d f=%d v=%s]", i, p.Format(), hexs(cloneBytes(p.Value())))
 				if p.Value() != nil && len(p.Value()) == 0 {
 					sb.WriteString("(empty)")
 				}
